@@ -61,6 +61,11 @@ type regAccess struct {
 	Shard ssa.Value // the shard value the map belongs to
 	Val   ssa.Value // stored value for update/replace
 	Via   string    // helper function the access physically sits in ("" = in Fn itself)
+	Home   *ssa.Function   // function the access physically sits in
+	HomeIn ssa.Instruction // the access instruction itself
+	SKind  string          // how the shard was selected: fn / array / alloc / ""
+	SKey   ssa.Value       // key the shard function was applied to
+	SIdx   ssa.Value       // index into the shard array
 }
 
 func (R *BusRoles) isRegistryMapLoad(v ssa.Value) (shard ssa.Value, ok bool) {
@@ -71,66 +76,66 @@ func (R *BusRoles) isRegistryMapLoad(v ssa.Value) (shard ssa.Value, ok bool) {
 	return base, true
 }
 
-// registryAccesses lists every access to a registry map. Accesses made in helper
-// functions whose shard (or key) is a parameter are attributed to each static call site
-// of the helper, with the parameter replaced by the call's argument.
+// registryAccesses lists every access to a registry map. An access made in a helper
+// whose shard or key is (derived from) a parameter is lifted to each static call site of
+// the helper, with the parameter replaced by the call's argument, until no parameter is
+// left; Home/HomeIn keep the function and instruction the access physically sits in.
 func registryAccesses(p *Prog, R *BusRoles) []regAccess {
 	raw := registryAccessesRaw(p, R)
+	ix := newIPIndex(p)
 	var out []regAccess
-	var expand func(a regAccess, depth int)
-	expand = func(a regAccess, depth int) {
-		sp, shardIsParam := stripConv(a.Shard).(*ssa.Parameter)
-		if !shardIsParam || depth > 3 || sp.Parent() != a.Fn {
+	isParamOf := func(v ssa.Value, f *ssa.Function) (*ssa.Parameter, bool) {
+		if v == nil {
+			return nil, false
+		}
+		pv, ok := stripConv(v).(*ssa.Parameter)
+		return pv, ok && pv.Parent() == f
+	}
+	var lift func(a regAccess, depth int)
+	lift = func(a regAccess, depth int) {
+		_, p1 := isParamOf(a.Shard, a.Fn)
+		_, p2 := isParamOf(a.Key, a.Fn)
+		_, p3 := isParamOf(a.SKey, a.Fn)
+		callers := ix.callers[a.Fn]
+		if !(p1 || p2 || p3) || depth > 3 || len(callers) == 0 {
 			out = append(out, a)
 			return
 		}
-		found := false
-		for _, g := range p.FuncsIn(PkgBus) {
-			for _, b := range g.Blocks {
-				for _, in := range b.Instrs {
-					ci, ok := in.(ssa.CallInstruction)
-					if !ok {
-						continue
-					}
-					sc := ci.Common().StaticCallee()
-					if sc == nil {
-						continue
-					}
-					if o := sc.Origin(); o != nil {
-						sc = o
-					}
-					if sc != a.Fn {
-						continue
-					}
-					found = true
-					na := a
-					na.Fn = g
-					na.In = in
-					bind := func(v ssa.Value) ssa.Value {
-						if pv, ok := stripConv(v).(*ssa.Parameter); ok && pv.Parent() == a.Fn {
-							for i, fp := range a.Fn.Params {
-								if fp == pv && i < len(ci.Common().Args) {
-									return ci.Common().Args[i]
-								}
-							}
+		for _, ci := range callers {
+			na := a
+			na.Fn = ci.Parent()
+			na.In = ci
+			args := callArgs(ci.Common())
+			bind := func(v ssa.Value) ssa.Value {
+				if pv, ok := isParamOf(v, a.Fn); ok {
+					for i, fp := range a.Fn.Params {
+						if fp == pv && i < len(args) {
+							return args[i]
 						}
-						return v
 					}
-					na.Shard = bind(a.Shard)
-					if a.Key != nil {
-						na.Key = bind(a.Key)
-					}
-					na.Via = FuncDisplay(a.Fn)
-					expand(na, depth+1)
 				}
+				return v
 			}
-		}
-		if !found {
-			out = append(out, a)
+			if p1 {
+				na.Shard = bind(a.Shard)
+				na.SKind, na.SKey, na.SIdx = R.shardOrigin(na.Shard)
+			}
+			if a.Key != nil {
+				na.Key = bind(a.Key)
+			}
+			if a.SKey != nil && !p1 {
+				na.SKey = bind(a.SKey)
+			}
+			if na.Via == "" {
+				na.Via = FuncDisplay(a.Fn)
+			}
+			lift(na, depth+1)
 		}
 	}
 	for _, a := range raw {
-		expand(a, 0)
+		a.Home, a.HomeIn = a.Fn, a.In
+		a.SKind, a.SKey, a.SIdx = R.shardOrigin(a.Shard)
+		lift(a, 0)
 	}
 	return out
 }
@@ -257,7 +262,7 @@ func checkKeyAgreement(c *Ctx, p *Prog, R *BusRoles, rule string) {
 		perFn[fn]++
 		construct := fmt.Sprintf("%s/registry-%s#%d", fn, a.Kind, perFn[fn])
 		pos := p.Pos(a.In.Pos())
-		kind, skey, idx := R.shardOrigin(a.Shard)
+		kind, skey, idx := a.SKind, a.SKey, a.SIdx
 		switch kind {
 		case "fn":
 			if a.Key != nil && !sameValue(a.Key, skey) {
@@ -579,6 +584,17 @@ func checkSnapshot(c *Ctx, p *Prog, R *BusRoles, rule string) {
 		return
 	}
 	pos := p.Pos(header.Instrs[0].Pos())
+	// the snapshot may be taken by a helper: continue inside it on what it returns
+	ix := newIPIndex(p)
+	if rets := ix.Returned(ranged, 0); len(rets) == 1 {
+		if call, ok := stripConv(ranged).(*ssa.Call); ok {
+			f = call.Common().StaticCallee()
+			if o := f.Origin(); o != nil {
+				f = o
+			}
+			ranged = rets[0]
+		}
+	}
 	src, how := freshCopyOf(ranged)
 	if src == nil && privateBuilt(ranged, R, 0, map[ssa.Value]bool{}) {
 		c.Discharge(rule, "PublishContext/dispatch-loop/snapshot", pos, "the loop ranges over a slice built by this publish from nil/make through appends (never aliasing the registry list)")
@@ -765,7 +781,11 @@ func checkWriteBacks(c *Ctx, p *Prog, R *BusRoles, rule string) {
 		n++
 		fn := FuncDisplay(a.Fn)
 		construct := fn + "/registry-write-back"
-		pos := p.Pos(a.In.Pos())
+		pos := p.Pos(a.HomeIn.Pos())
+		homeUp, _ := a.HomeIn.(*ssa.MapUpdate)
+		if homeUp == nil {
+			continue
+		}
 		d := &derivation{}
 		deriveSlice(a.Val, R, d, map[ssa.Value]bool{})
 		if len(d.other) > 0 {
@@ -778,19 +798,19 @@ func checkWriteBacks(c *Ctx, p *Prog, R *BusRoles, rule string) {
 		}
 		ok := true
 		for _, lk := range d.lookups {
-			if !sameValue(lk.Index, a.Key) || !sameMapField(lk.X, a.Map) {
+			if !sameValue(lk.Index, homeUp.Key) || !sameMapField(lk.X, homeUp.Map) {
 				ok = false
 				c.Violate(rule, construct+"/same-key", pos, "the list written back was looked up under a different key or in a different shard", nil)
 			}
 			// no release of the shard lock between lookup and write-back, and the
 			// lookup happens with the write lock taken
-			for _, rel := range lockReleasesOf(a.Fn, R) {
-				if reaches(lk, rel) && reaches(rel, a.In) {
+			for _, rel := range lockReleasesOf(a.Home, R) {
+				if reaches(lk, rel) && reaches(rel, a.HomeIn) {
 					ok = false
 					c.Violate(rule, construct+"/one-critical-section", p.Pos(rel.Pos()), "the shard lock is released between the lookup and the write-back of the registry list (check-then-act): a concurrent edit in the window is overwritten or an unrelated registration removed", nil)
 				}
 			}
-			if !dominatedByWriteLock(lk, a.Fn, R) {
+			if !dominatedByWriteLock(lk, a.Home, R) {
 				ok = false
 				c.Violate(rule, construct+"/lookup-under-write-lock", p.Pos(lk.Pos()), "the list that is written back is looked up before the write lock is taken", nil)
 			}
